@@ -36,6 +36,7 @@ import (
 	"sort"
 	"strconv"
 	"strings"
+	"sync"
 	"syscall"
 	"time"
 
@@ -1232,6 +1233,8 @@ type wworld struct {
 	label string
 	wire  int
 	dead  bool
+	// last call: the header at the head of the wire was refused (an error, no payload byte taken, no wait)
+	lastHdrRefused bool
 }
 
 func newWWorld(c *Ctx, label string, wire []byte, keyed bool) *wworld {
@@ -1264,6 +1267,7 @@ func (w *wworld) op(op, entry string, f func() (string, error)) {
 		flag, announced = w.conn.In[0], binary.BigEndian.Uint32(w.conn.In[1:5])
 	}
 	firstBad := firstBadFrame(w.conn.In)
+	inBefore, eofReads0 := len(w.conn.In), w.conn.EOFReads
 	runtime.ReadMemStats(&m0)
 	func() {
 		defer func() { pv = recover() }()
@@ -1290,10 +1294,16 @@ func (w *wworld) op(op, entry string, f func() (string, error)) {
 		if err != nil {
 			obs = "err " + decErr(err)
 		}
-		if announced > stream.MaxMessageSize && obs != "err tooLarge" {
-			viol("C13:frame-limit:"+entry, fmt.Sprintf("%s did not refuse a frame header announcing %d bytes (limit %d)", entry, announced, stream.MaxMessageSize), "err tooLarge", obs)
-		} else if announced <= stream.MaxMessageSize && flag > 10 && obs != "err badFlag" {
-			viol("C13:frame-flag:"+entry, fmt.Sprintf("%s did not refuse a frame header with end flag %d", entry, flag), "err badFlag", obs)
+		// "refused" is judged on EFFECTS, not on the wording of the error: an error came back, not one
+		// byte of the frame's payload was taken from the wire (at most the 5 header bytes were consumed)
+		// and the reader never went on to wait for bytes the wire does not hold
+		refused := err != nil && inBefore-len(w.conn.In) <= 5 && w.conn.EOFReads == eofReads0
+		how := fmt.Sprintf("%s; %d bytes taken from the wire, %d reads past its end", obs, inBefore-len(w.conn.In), w.conn.EOFReads-eofReads0)
+		w.lastHdrRefused = refused
+		if announced > stream.MaxMessageSize && !refused {
+			viol("C13:frame-limit:"+entry, fmt.Sprintf("%s did not refuse a frame header announcing %d bytes (limit %d)", entry, announced, stream.MaxMessageSize), "an error, no payload byte read", how)
+		} else if announced <= stream.MaxMessageSize && flag > 10 && !refused {
+			viol("C13:frame-flag:"+entry, fmt.Sprintf("%s did not refuse a frame header with end flag %d", entry, flag), "an error, no payload byte read", how)
 		}
 	}
 	if a, lim := m1.TotalAlloc-m0.TotalAlloc, uint64(16*w.wire+4<<20); a > lim {
@@ -1303,7 +1313,7 @@ func (w *wworld) op(op, entry string, f func() (string, error)) {
 	// unread wire that cannot be delivered decides how it must end. When that frame is an oversize
 	// header, every frame before it is complete and legal, so "ran out of data" can only mean the
 	// reader accepted the oversize header and waited for its payload.
-	if pv == nil && err != nil && (errors.Is(err, io.EOF) || errors.Is(err, io.ErrUnexpectedEOF)) && firstBad == "oversize" {
+	if pv == nil && err != nil && (errors.Is(err, io.EOF) || errors.Is(err, io.ErrUnexpectedEOF) || w.conn.EOFReads > eofReads0) && firstBad == "oversize" {
 		viol("C13:frame-limit:"+entry, fmt.Sprintf("%s ran out of data although the first undeliverable frame of the wire is a header announcing more than %d bytes: the header was accepted and a payload buffer sized from it", entry, stream.MaxMessageSize), "err tooLarge", "err eof")
 	}
 }
@@ -1380,7 +1390,7 @@ func (w *wworld) getsecret() {
 
 func (w *wworld) getfile() {
 	w.op("getfile", "stream.GetFile", func() (string, error) {
-		dir, err := os.MkdirTemp(workRoot(), "c13f-")
+		dir, err := os.MkdirTemp(workRoot(), scratchPrefix("c13f"))
 		if err != nil {
 			return "", err
 		}
@@ -1765,13 +1775,13 @@ func decodeWire(c *Ctx, cases *[]Case) {
 		wire = append(wire, wireFrame(1, 2, []byte("ok"))...)
 		for _, api := range []string{"recvc", "readmsg"} {
 			w := newWWorldP(c, fmt.Sprintf("wire-flood k=%d %s", k, api), wire, floodPayload(k), false)
-			t0 := time.Now()
+			t0, cpu0 := time.Now(), cpuTime()
 			if api == "recvc" {
 				w.recvc()
 			} else {
 				w.readmsg()
 			}
-			if d := time.Since(t0); d > 20*time.Second {
+			if d := time.Since(t0); slowAndBusy(c, t0, cpu0, 20*time.Second) {
 				c13Violate(c, Violation{Property: "C13", Key: "C13:time:stream." + api, What: fmt.Sprintf("%d empty partial frames took %v", k, d), Ops: []string{"# " + w.label}, Expected: "linear time", Observed: d.String()})
 			}
 			c.Count("wire:flood")
@@ -1802,7 +1812,7 @@ func guardLeaf(c *Ctx, entry string, in string, f func()) {
 				Ops: []string{entry + " " + strconv.Quote(clip(in, 200))}, Expected: "a value or an error", Observed: fmt.Sprint(p)})
 		}
 	}()
-	t0 := time.Now()
+	t0, cpu0 := time.Now(), cpuTime()
 	var m0, m1 runtime.MemStats
 	measure := len(in) >= 1024 // (short inputs: the fixed costs of the parsers dominate; panics and time still checked)
 	if measure {
@@ -1819,10 +1829,33 @@ func guardLeaf(c *Ctx, entry string, in string, f func()) {
 		}
 		c.Count("leaf:alloc-measured")
 	}
-	if d := time.Since(t0); d > 5*time.Second {
+	if d := time.Since(t0); slowAndBusy(c, t0, cpu0, 5*time.Second) {
 		c13Violate(c, Violation{Property: "C13", Key: "C13:time:" + entry, What: fmt.Sprintf("%s took %v on %d bytes", entry, d, len(in)),
 			Ops: []string{entry + " " + strconv.Quote(clip(in, 200))}, Expected: "time linear in the input", Observed: d.String()})
 	}
+}
+
+// cpuTime: processor time this process has consumed (user + system).
+func cpuTime() time.Duration {
+	var ru syscall.Rusage
+	if syscall.Getrusage(syscall.RUSAGE_SELF, &ru) != nil {
+		return 0
+	}
+	return time.Duration(ru.Utime.Nano() + ru.Stime.Nano())
+}
+
+// slowAndBusy: the call took longer than the (generous) bound AND the process burnt a fair share of
+// that on the processor. Super-linear work is processor time; a call that was merely descheduled on
+// a loaded machine shows a long wall clock and little processor time, and is counted, not reported.
+func slowAndBusy(c *Ctx, t0 time.Time, cpu0 time.Duration, bound time.Duration) bool {
+	if time.Since(t0) <= bound {
+		return false
+	}
+	if cpu := cpuTime() - cpu0; cpu0 > 0 && cpu < bound/4 {
+		c.Count("slow-wall-clock-little-cpu:not-judged")
+		return false
+	}
+	return true
 }
 
 func clip(s string, n int) string {
@@ -2046,7 +2079,7 @@ type childJob struct {
 	K       int      `json:"k"`
 	Api     string   `json:"api,omitempty"`    // kind "wire": recvn | getsecret | getfile | recvc | readmsg
 	Wire    string   `json:"wire,omitempty"`   // kind "wire": raw wire bytes (hex)
-	Expect  string   `json:"expect,omitempty"` // kind "wire": reply prefix the property demands ("" = none)
+	Expect  string   `json:"expect,omitempty"` // kind "wire": non-empty = the property demands that the first header is refused (judged on effects: childResult.HdrRefused)
 }
 
 type childResult struct {
@@ -2056,6 +2089,8 @@ type childResult struct {
 	// kind "wire": what the in-process oracles of wworld.op recorded inside the child
 	Viol []Violation `json:"viol,omitempty"`
 	Op   string      `json:"op,omitempty"` // kind "adnest": the operation as finally logged (parser verdict filled in)
+	// kind "wire": the reader returned an error without taking a payload byte or waiting for one
+	HdrRefused bool `json:"hdr_refused,omitempty"`
 }
 
 func hexFrames(fs []dframe) []string {
@@ -2102,6 +2137,7 @@ func runDecodeChild(c *Ctx) error {
 		fmt.Fprintf(out, "START %d\n", i)
 		out.Flush()
 		var rep, childOp string
+		hdrRefused := false
 		var m0, m1 runtime.MemStats
 		runtime.ReadMemStats(&m0)
 		func() {
@@ -2136,6 +2172,7 @@ func runDecodeChild(c *Ctx) error {
 				w := newWWorld(c, j.Label, wire, false)
 				w.api(j.Api)
 				rep = w.real[len(w.real)-1]
+				hdrRefused = w.lastHdrRefused
 			case "stack":
 				var wire []byte
 				for k := 0; k < j.K; k++ {
@@ -2158,7 +2195,7 @@ func runDecodeChild(c *Ctx) error {
 		if m1.StackInuse > m0.StackInuse {
 			stk = m1.StackInuse - m0.StackInuse
 		}
-		cr := childResult{Reply: rep, Alloc: m1.TotalAlloc - m0.TotalAlloc, Stack: stk, Op: childOp}
+		cr := childResult{Reply: rep, Alloc: m1.TotalAlloc - m0.TotalAlloc, Stack: stk, Op: childOp, HdrRefused: hdrRefused}
 		if j.Kind == "wire" {
 			cr.Viol = append(cr.Viol, c.Res.Violations...)
 			c.Res.Violations = nil
@@ -2178,7 +2215,7 @@ func runChildJobs(c *Ctx, jobs []childJob, cases *[]Case) error {
 		return nil
 	}
 	root := workRoot()
-	dir, err := os.MkdirTemp(root, "c13-")
+	dir, err := os.MkdirTemp(root, scratchPrefix("c13"))
 	if err != nil {
 		return err
 	}
@@ -2198,20 +2235,34 @@ func runChildJobs(c *Ctx, jobs []childJob, cases *[]Case) error {
 	for start < len(jobs) {
 		cmd := exec.Command(exe, "decodechild", "-out", filepath.Join(dir, "child.json"), "-seed", fmt.Sprint(c.Seed), "-oracle", c.Oracle)
 		cmd.Env = append(os.Environ(), "VERIF_C13_JOBS="+jp, fmt.Sprintf("VERIF_C13_START=%d", start), "GOMEMLIMIT=4GiB", "GOTRACEBACK=single")
-		var so, se bytes.Buffer
+		var so progressBuf
+		var se bytes.Buffer
 		cmd.Stdout, cmd.Stderr = &so, &se
 		done := make(chan error, 1)
 		if err := cmd.Start(); err != nil {
 			return err
 		}
 		go func() { done <- cmd.Wait() }()
+		// the child reports START / RESULT per job: it is killed when it stops PROGRESSING (no new output
+		// for two minutes: one job hangs), not when the whole batch takes long on a busy machine
 		timedOut := false
-		select {
-		case <-done:
-		case <-time.After(120 * time.Second):
-			_ = cmd.Process.Kill()
-			<-done
-			timedOut = true
+		lastLen, lastChange := 0, time.Now()
+	waitChild:
+		for {
+			select {
+			case <-done:
+				break waitChild
+			case <-time.After(500 * time.Millisecond):
+				if n := so.Len(); n != lastLen {
+					lastLen, lastChange = n, time.Now()
+				}
+				if time.Since(lastChange) > 120*time.Second {
+					_ = cmd.Process.Kill()
+					<-done
+					timedOut = true
+					break waitChild
+				}
+			}
 		}
 		last := start - 1
 		started := -1
@@ -2264,6 +2315,10 @@ func runChildJobs(c *Ctx, jobs []childJob, cases *[]Case) error {
 			ops[3] = fmt.Sprintf("ad %s -", j.Api)
 		}
 		c.Res.Evaluations++
+		c.Planned("decode-child-jobs", 1)
+		if fatal[i] != "" || results[i] != nil {
+			c.Ran("decode-child-jobs", 1)
+		}
 		switch {
 		case fatal[i] != "":
 			key := "C13:fatal:" + entry
@@ -2308,7 +2363,7 @@ func runChildJobs(c *Ctx, jobs []childJob, cases *[]Case) error {
 					v.Ops = append([]string{ops[0]}, v.Ops...)
 					c13Violate(c, v)
 				}
-				if j.Expect != "" && !strings.HasPrefix(r.Reply, j.Expect) {
+				if j.Expect != "" && !r.HdrRefused {
 					c13Violate(c, Violation{Property: "C13", Key: "C13:frame-limit:" + entry, What: fmt.Sprintf("%s did not refuse a frame header announcing more than %d bytes (%s)", entry, stream.MaxMessageSize, j.Label), Ops: ops, Expected: j.Expect, Observed: clip(r.Reply, 200)})
 				}
 				rep := r.Reply
@@ -2349,16 +2404,29 @@ func firstLine(s string) string {
 	return "process died without a message"
 }
 
+// workRoot: the scratch directory of THIS checkout: next to where the driver asked for the result
+// (-out <root>/.work/...), else <root>/.work derived from the executable (<root>/.bin/corr), else a
+// private directory under the system's temporary directory. Never a path of another checkout.
 func workRoot() string {
-	exe, err := os.Executable()
-	if err == nil {
-		root := filepath.Join(filepath.Dir(filepath.Dir(exe)), ".work")
-		if os.MkdirAll(root, 0o755) == nil {
-			return root
+	var cands []string
+	for i, a := range os.Args {
+		if (a == "-out" || a == "--out") && i+1 < len(os.Args) {
+			if d := filepath.Dir(os.Args[i+1]); filepath.Base(d) == ".work" {
+				cands = append(cands, d)
+			}
 		}
 	}
-	_ = os.MkdirAll("/verif/.work", 0o755)
-	return "/verif/.work"
+	if exe, err := os.Executable(); err == nil && filepath.Base(filepath.Dir(exe)) == ".bin" {
+		cands = append(cands, filepath.Join(filepath.Dir(filepath.Dir(exe)), ".work"))
+	}
+	for _, d := range cands {
+		if os.MkdirAll(d, 0o755) == nil {
+			return d
+		}
+	}
+	d := filepath.Join(os.TempDir(), fmt.Sprintf("cedar-verif-work-%d", os.Getuid()))
+	_ = os.MkdirAll(d, 0o700)
+	return d
 }
 
 // ------------------------------------------------------------------ engine
@@ -2414,5 +2482,27 @@ func runDecode(c *Ctx) error {
 	}
 	timed("child")
 	defer timed("oracle")
-	return diffBatch(c, "decode", cases, nil)
+	return diffBatch(c, "decode", cases, decodeNorm)
 }
+
+// decodeNorm: the meter q= counts the calls of stream.IsEncrypted() the decoder makes -- how many of
+// them one string costs is an internal matter of the library (caching the answer, asking once per
+// message, is behaviour-preserving). The count stays in the recorded lines for the reader and is
+// bounded by the property oracle (C13:steps, C13:spin); it is not part of the model comparison.
+var reDecodeQ = regexp.MustCompile(` q=[0-9]+`)
+
+func decodeNorm(s string) string { return reDecodeQ.ReplaceAllString(s, "") }
+
+// progressBuf: a buffer a child's output is copied into while the parent watches its length.
+type progressBuf struct {
+	mu sync.Mutex
+	b  bytes.Buffer
+}
+
+func (p *progressBuf) Write(x []byte) (int, error) {
+	p.mu.Lock()
+	defer p.mu.Unlock()
+	return p.b.Write(x)
+}
+func (p *progressBuf) Len() int       { p.mu.Lock(); defer p.mu.Unlock(); return p.b.Len() }
+func (p *progressBuf) String() string { p.mu.Lock(); defer p.mu.Unlock(); return p.b.String() }
